@@ -99,6 +99,24 @@ def _case(rng, n, reg):
           'reg': bool(reg), 'split': rng.randrange(0, n + 1), 'geos': geos}
 
 
+HYP_REGS = {'none': None, 'l2': Fraction(1, 4), 'l2b': Fraction(1)}
+
+
+def _hyp_case(rng, order):
+  """3 clients x 3 rows; 2 clusters: a small-norm one that fits worse and a large-norm one that fits better, so
+  that the regulariser decides the assignment."""
+  c = _case(rng, 9, False)
+  c['w'], c['b'] = [rng.choice([-1, 1]), rng.choice([-1, 0, 1])], rng.choice([-1, 0, 1])
+  c['w2'], c['b2'] = [rng.choice([-7, -6, 6, 7]), rng.choice([-6, 5, 6])], rng.choice([-5, 4, 5])
+  # targets generated by the large cluster (+ small noise): it fits better, but pays for its norm
+  for i in range(9):
+    x = c['x'][i]
+    c['y'][i] = int(round((c['w2'][0] * x[0] + c['w2'][1] * x[1]) / 4 + c['b2'])) + rng.choice([-1, 0, 1])
+  c.update({'kind': 'hyp', 'order': list(order)})
+  del c['geos'], c['split'], c['reg']
+  return c
+
+
 ALGO_PATTERNS = ['empty1', 'empty2', 'empty-then-empty', 'mixed', 'normal']
 ALGO_PATTERNS_MORE = ['empty3', 'single', 'all', 'mixed-tail', 'normal-then-empty', 'single-then-all']
 
@@ -134,6 +152,11 @@ def generate(tier, rng):
   yield {'kind': 'lowp', 'n': [700, 300, 0], 'geos': [[1024, 1], [64, 2], [512, 3]], 'dtype': 'bfloat16'}
   if tier != 'quick':
     yield {'kind': 'lowp', 'n': [2500, 0, 40], 'geos': [[4096, 1], [128, 1]], 'dtype': 'float16'}
+  # several HypCluster evaluators / initializers for the SAME Model object with different regularisers
+  for order in ([['l2', 'none', 'l2b'], ['none', 'l2', 'none']] if tier == 'quick' else
+                [['l2', 'none', 'l2b'], ['none', 'l2', 'none'], ['l2b', 'l2', 'none'], ['none', 'none', 'l2b'],
+                 ['l2', 'l2b', 'l2'], ['l2b', 'none', 'l2']]):
+    yield _hyp_case(rng, order)
   # algorithm-level cases first: the REAL mime / mime_lite / agnostic_federated_averaging for 2 rounds
   for rep in range({'quick': 1, 'search': 6}.get(tier, 4)):
     for pattern in ALGO_PATTERNS + ([] if tier == 'quick' else ALGO_PATTERNS_MORE):
@@ -432,6 +455,103 @@ def _encode_algo(case, obs):
   return f'({fw.clist(items)}, tt)'
 
 
+def _hyp_model():
+  from fedjax.core import models, metrics
+
+  class PredMean(metrics.Metric):   # reveals which cluster's params evaluated a client
+    def zero(self):
+      return metrics.MeanStat.new(0., 0.)
+
+    def evaluate_example(self, example, prediction):
+      return metrics.MeanStat.new(prediction, 1.)
+
+  def apply_for_train(params, batch, rng):
+    del rng
+    return batch['x'] @ params['w'] + params['b']
+
+  import jax.numpy as jnp
+  return models.Model(init=lambda rng: {'w': jnp.array([0.25, -0.25], jnp.float32), 'b': jnp.array(0.5, jnp.float32)},
+                      apply_for_train=apply_for_train, apply_for_eval=lambda params, batch: apply_for_train(params, batch, None),
+                      train_loss=lambda batch, pred: (pred - batch['y'])**2, eval_metrics={'pm': PredMean()})
+
+
+def _run_hyp(case):
+  import jax
+  from fedjax.core import regularizers, optimizers, client_datasets
+  from fedjax.algorithms import hyp_cluster
+  model = _hyp_model()                      # ONE Model object shared by every evaluator / initializer of this case
+  rows = [[0, 1, 2], [3, 4, 5], [6, 7, 8]]
+  cluster_params = [_params(case, 1), _params(case, 2)]
+  hp = client_datasets.PaddedBatchHParams(batch_size=4, num_batch_size_buckets=2)
+  thp = client_datasets.ShuffleRepeatBatchHParams(batch_size=3, num_epochs=1, seed=0)
+
+  def regf(name):
+    lam = HYP_REGS[name]
+    return None if lam is None else regularizers.l2_regularizer(float(lam))
+
+  def clients():
+    return [(b'c%d' % i, _dataset(case, r), jax.random.PRNGKey(i)) for i, r in enumerate(rows)]
+
+  def use(ev, init):
+    o = {}
+    cl = hyp_cluster._cluster_losses(ev._maximization_step_evaluator, cluster_params, clients(), hp)
+    o['losses'] = [[_fl(v) for v in cl[b'c%d' % i]] for i in range(3)]
+    res = dict(ev.evaluate_clients(cluster_params, clients(), [(cid, ds) for cid, ds, _ in clients()], hp))
+    o['pm'] = [_fl(res[b'c%d' % i]['pm']) for i in range(3)]
+    centers = init.cluster_params(3, jax.random.PRNGKey(5), clients(), thp, hp)
+    o['centers'] = [_vec(c) for c in centers]
+    return o
+
+  built, obs = [], {'shared': [], 'again_first': None, 'fresh': []}
+  for name in case['order']:
+    ev = hyp_cluster.HypClusterEvaluator(model, regf(name))
+    init = hyp_cluster.ModelKMeansInitializer(model, optimizers.sgd(LR), regf(name))
+    built.append((ev, init))
+    obs['shared'].append(use(ev, init))
+  obs['again_first'] = use(*built[0])       # the first-built objects must be unaffected by the later ones
+  for name in sorted(set(case['order'])):   # baseline: a fresh Model object per regulariser
+    m2 = _hyp_model()
+    o = use(hyp_cluster.HypClusterEvaluator(m2, regf(name)), hyp_cluster.ModelKMeansInitializer(m2, optimizers.sgd(LR), regf(name)))
+    obs['fresh'].append([name, o['centers']])
+  return obs
+
+
+def _oracle_hyp(case, obs):
+  out = []
+  rows = [[0, 1, 2], [3, 4, 5], [6, 7, 8]]
+  fresh = dict((n, c) for n, c in obs['fresh'])
+  runs = list(zip(case['order'], obs['shared'], [f'object {i + 1} of {len(case["order"])}' for i in range(len(case['order']))]))
+  runs.append((case['order'][0], obs['again_first'], 'the first-built objects, used again at the end'))
+  for name, o, who in runs:
+    lam = float(HYP_REGS[name] or 0)
+    for ci, r in enumerate(rows):
+      want = []
+      for k in (1, 2):
+        w = np.array(case['w'] if k == 1 else case['w2'], np.float64) / 4
+        b = (case['b'] if k == 1 else case['b2']) / 4
+        X = np.array([case['x'][i] for i in r], np.float64) / 4
+        Y = np.array([case['y'][i] for i in r], np.float64) / 4
+        e = X @ w + b - Y
+        want.append((float((e * e).mean() + lam * (w @ w + b * b)), float((X @ w + b).mean())))
+      got = o['losses'][ci]
+      if not all(_anear(a, b[0]) for a, b in zip(got, want)) and not [k for k, _ in out if k == 'hyp-cluster.regularizer']:
+        out.append(('hyp-cluster.regularizer',
+                    f'{who} (regulariser {name}, built in the order {case["order"]} for ONE Model): per-cluster average losses of client {ci} '
+                    f'{got}, closed form with this regulariser exactly once {[v[0] for v in want]}'))
+      if abs(want[0][0] - want[1][0]) > 0.05:
+        k = 0 if want[0][0] < want[1][0] else 1
+        if not _anear(o['pm'][ci], want[k][1]) and not [kk for kk, _ in out if kk == 'hyp-cluster.assignment']:
+          out.append(('hyp-cluster.assignment',
+                      f'{who} (regulariser {name}): evaluate_clients evaluated client {ci} with a cluster other than cluster {k} '
+                      f'(mean prediction {o["pm"][ci]}, expected {want[k][1]}; losses incl. regulariser {[v[0] for v in want]})'))
+    ref = fresh[name]
+    if not all(_anear(a, b) for ca, cb in zip(o['centers'], ref) for a, b in zip(ca, cb)) \
+        and not [k for k, _ in out if k == 'hyp-cluster.kmeans-init']:
+      out.append(('hyp-cluster.kmeans-init',
+                  f'{who} (regulariser {name}): ModelKMeansInitializer.cluster_params {o["centers"]} differs from the same call on a fresh Model object {ref}'))
+  return out
+
+
 def _run_lowp(case):
   import fedjax
   import jax
@@ -453,6 +573,8 @@ def _run_lowp(case):
 
 
 def run(case):
+  if case.get('kind') == 'hyp':
+    return _run_hyp(case)
   if case.get('kind') == 'lowp':
     return _run_lowp(case)
   if case.get('kind') == 'algo':
@@ -553,6 +675,8 @@ def _mean_rows(vals, rows, zero):
 
 
 def oracle(case, obs):
+  if case.get('kind') == 'hyp':
+    return _oracle_hyp(case, obs)
   if case.get('kind') == 'lowp':
     return [('agnostic.domain-num.low-precision-loss',
              f'domain_num {dn} under padded batch {geo} with a {case["dtype"]} loss; real counts {case["n"]}')
@@ -676,6 +800,8 @@ def _mask(cells):
 
 
 def encode(case, obs):
+  if case.get('kind') == 'hyp':
+    return None
   if case.get('kind') == 'lowp':
     return None
   if case.get('kind') == 'algo':
@@ -724,7 +850,7 @@ def encode(case, obs):
 
 
 def nontrivial(case, obs):
-  if case.get('kind') in ('algo', 'lowp'):
+  if case.get('kind') in ('algo', 'lowp', 'hyp'):
     return True
   for g in obs['geos']:
     cells = [c for b in g['layout'] for c in b]
@@ -734,6 +860,8 @@ def nontrivial(case, obs):
 
 
 def describe(case, obs):
+  if case.get('kind') == 'hyp':
+    return {'hyp_order': '-'.join(case['order'])}
   if case.get('kind') == 'lowp':
     return {'lowp_dtype': case['dtype']}
   if case.get('kind') == 'algo':
@@ -747,7 +875,7 @@ def describe(case, obs):
 
 
 def shrink(case):
-  if case.get('kind') == 'lowp':
+  if case.get('kind') in ('lowp', 'hyp'):
     return
   if case.get('kind') == 'algo':
     if len(case['rounds']) > 1:
